@@ -303,6 +303,8 @@ func runSchedule(s schedule) (sig, msg string) {
 				defer wg.Done()
 				for _, j := range g {
 					h := runJob(j)
+					harness.Label("job-"+j.Kind, 1)
+					harness.Label("jobs-run-concurrently", 1)
 					if want := reference(j); h != want {
 						mu.Lock()
 						if sig == "" {
@@ -321,7 +323,7 @@ func runSchedule(s schedule) (sig, msg string) {
 
 func TestSchedules(t *testing.T) {
 	buildPool()
-	harness.Rapid(t, 160, 6000, func(rt *rapid.T, c *harness.Case) {
+	harness.Rapid(t, 320, 6000, func(rt *rapid.T, c *harness.Case) {
 		nb := rapid.IntRange(1, 3).Draw(rt, "batches")
 		var s schedule
 		counts := map[string]int{}
@@ -373,7 +375,7 @@ func TestSchedules(t *testing.T) {
 // sequential permutations: state must not leak from one input to the next
 func TestOrders(t *testing.T) {
 	buildPool()
-	harness.Rapid(t, 120, 4000, func(rt *rapid.T, c *harness.Case) {
+	harness.Rapid(t, 240, 4000, func(rt *rapid.T, c *harness.Case) {
 		n := rapid.IntRange(3, 10).Draw(rt, "n")
 		var js []job
 		for i := 0; i < n; i++ {
@@ -390,6 +392,7 @@ func TestOrders(t *testing.T) {
 		perm := rapid.Permutation(js).Draw(rt, "perm")
 		for i, j := range perm {
 			h := runJob(j)
+			harness.Label("jobs-run-in-permuted-order", 1)
 			c.Check(h == reference(j), "result-depends-on-order:"+j.Kind, "job %s run as #%d of %d gave %s, its first run gave %s", j.key(), i, len(perm), h, reference(j))
 		}
 		c.SetNonTrivial(n >= 4)
